@@ -61,6 +61,9 @@ pub open spec fn views(v: Seq<String>) -> Seq<Seq<char>> { v.map_values(|s: Stri
 impl BytesRegexSetBuilder {
     #[verifier::external_body]
     pub fn new(patterns: Vec<String>) -> (r: Self) ensures r.pats@ == views(patterns@), r.unicode@, !r.ci@ { unimplemented!() }
+    // the same constructor on a borrowed list (RegexSetBuilder::new is generic over `IntoIterator<Item: AsRef<str>>`)
+    #[verifier::external_body]
+    pub fn new_ref(patterns: &Vec<String>) -> (r: Self) ensures r.pats@ == views(patterns@), r.unicode@, !r.ci@ { unimplemented!() }
     #[verifier::external_body]
     pub fn unicode(self, yes: bool) -> (r: Self) ensures r.pats@ == self.pats@, r.unicode@ == yes, r.ci@ == self.ci@ { unimplemented!() }
     #[verifier::external_body]
@@ -139,13 +142,29 @@ pub open spec fn shape(r: CompiledRegex) -> Shape {
     }
 }
 // the regex a rule's patterns and flags denote (a function of them: compiling twice gives the same thing)
+// the patterns of a fused rule that compile on their own, in order: one that does not compile matches nothing as a rule of its own
+// (C05: the fused rule answers like its members), so when the whole set does not build it is left out instead of disabling the others
+pub open spec fn valid_upto(pats: Seq<Seq<char>>, n: int, ci: bool) -> Seq<Seq<char>>
+    decreases n
+{
+    if n <= 0 { Seq::empty() }
+    else if builds(pats[n - 1], false, ci) { valid_upto(pats, n - 1, ci).push(pats[n - 1]) }
+    else { valid_upto(pats, n - 1, ci) }
+}
+pub open spec fn set_shape(pats: Seq<Seq<char>>, ci: bool) -> Shape {
+    if builds_set(pats, false, ci) { Shape::Set(pats, false, ci) }
+    else {
+        let v = valid_upto(pats, pats.len() as int, ci);
+        if v.len() > 0 && builds_set(v, false, ci) { Shape::Set(v, false, ci) } else { Shape::Error }
+    }
+}
 // `ci`: a full regex (kept as written by the parser) is compiled case-insensitively unless the rule says match-case; every other
 // pattern was lower-cased by the parser and is tested against the lower-cased URL, so its regex stays case-sensitive
 pub open spec fn compile_shape(fs: Seq<&str>, right: bool, left: bool, complete: bool, ci_wanted: bool) -> Shape {
     let ci = complete && ci_wanted;
     if some_empty(fs) || fs.len() == 0 { Shape::MatchAll }
     else if fs.len() == 1 { if builds(pattern_of(fs[0], right, left, complete), false, ci) { Shape::One(pattern_of(fs[0], right, left, complete), false, ci) } else { Shape::Error } }
-    else { if builds_set(patterns_of(fs, right, left, complete), false, ci) { Shape::Set(patterns_of(fs, right, left, complete), false, ci) } else { Shape::Error } }
+    else { set_shape(patterns_of(fs, right, left, complete), ci) }
 }
 
 //@EXTRACT src/regex_manager.rs :: fn compile_regex
@@ -163,10 +182,12 @@ pub open spec fn compile_shape(fs: Seq<&str>, right: bool, left: bool, complete:
         !some_empty(filters.remaining()) && filters.remaining().len() == 1 ==> (r is RegexParsingError
             || (r is Compiled && r->Compiled_0.pat@ == pattern_of(filters.remaining()[0], is_right_anchor, is_left_anchor, is_complete_regex) && !r->Compiled_0.unicode@
                 && r->Compiled_0.ci@ == (is_complete_regex && case_insensitive))), // OBL C02.regex.compile.single
-        // several patterns (a fused rule): the set of exactly their translations, in order
+        // several patterns (a fused rule): the set of exactly their translations, in order - or, when that set does not build, of
+        // those among them that compile on their own
         !some_empty(filters.remaining()) && filters.remaining().len() >= 2 ==> (r is RegexParsingError
-            || (r is CompiledSet && r->CompiledSet_0.pats@ == patterns_of(filters.remaining(), is_right_anchor, is_left_anchor, is_complete_regex) && !r->CompiledSet_0.unicode@
-                && r->CompiledSet_0.ci@ == (is_complete_regex && case_insensitive))), // OBL C02.regex.compile.set
+            || (r is CompiledSet && !r->CompiledSet_0.unicode@ && r->CompiledSet_0.ci@ == (is_complete_regex && case_insensitive)
+                && ({ let all = patterns_of(filters.remaining(), is_right_anchor, is_left_anchor, is_complete_regex);
+                      r->CompiledSet_0.pats@ == (if builds_set(all, false, is_complete_regex && case_insensitive) { all } else { valid_upto(all, all.len() as int, is_complete_regex && case_insensitive) }) }))), // OBL C02.regex.compile.set
         // the same, as a function of the inputs (C06: a recompiled regex is the regex that was discarded)
         shape(r) == compile_shape(filters.remaining(), is_right_anchor, is_left_anchor, is_complete_regex, case_insensitive), // OBL C02.regex.compile.function_of_inputs
 //@ ENDSPEC
@@ -265,6 +286,32 @@ pub open spec fn compile_shape(fs: Seq<&str>, right: bool, left: bool, complete:
         assert(fs.len() == 1 ==> views(escaped_patterns@)[0] == pattern_of(fs[0], is_right_anchor, is_left_anchor, is_complete_regex));
     }
 //@ ENDAFTER
+//@ SUBST R6
+    BytesRegexSetBuilder::new(&escaped_patterns)
+//@ WITH
+    BytesRegexSetBuilder::new_ref(&escaped_patterns)
+//@ ENDSUBST
+//@ SUBST R6
+    BytesRegexBuilder::new(&pattern)
+//@ WITH
+    BytesRegexBuilder::new(pattern.as_str())
+//@ ENDSUBST
+//@ SUBST R5
+    for pattern in escaped_patterns {
+//@ WITH
+    for pattern in it2: escaped_patterns
+                    invariant
+                        it2.seq() == pats0,
+                        views(valid_patterns@) =~= valid_upto(views(pats0), it2.index() as int, case_insensitive), // OBL C02.regex.compile.keep_valid
+                {
+                    let ghost vbefore = valid_patterns@;
+                    proof { assert(views(pats0)[it2.index() as int] == pats0[it2.index() as int]@); }
+//@ ENDSUBST
+//@ BEFORE
+    let mut valid_patterns = Vec::with_capacity(escaped_patterns.len());
+//@ AT
+    let ghost pats0 = escaped_patterns@;
+//@ ENDBEFORE
 //@ BEFORE
     let mut escaped_patterns = Vec::with_capacity(filters.len());
 //@ AT
@@ -290,8 +337,9 @@ pub open spec fn compile_shape(fs: Seq<&str>, right: bool, left: bool, complete:
         !some_empty(filters.remaining()) && filters.remaining().len() >= 2 ==> (r is RegexParsingError
             || (r is CompiledSet && !r->CompiledSet_0.unicode@
                 && r->CompiledSet_0.ci@ == (mask.has(NetworkFilterMask::IS_COMPLETE_REGEX) && !mask.has(NetworkFilterMask::MATCH_CASE))
-                && r->CompiledSet_0.pats@ == patterns_of(filters.remaining(),
-                    mask.has(NetworkFilterMask::IS_RIGHT_ANCHOR), mask.has(NetworkFilterMask::IS_LEFT_ANCHOR), mask.has(NetworkFilterMask::IS_COMPLETE_REGEX)))), // OBL C02.regex.make.set
+                && ({ let all = patterns_of(filters.remaining(), mask.has(NetworkFilterMask::IS_RIGHT_ANCHOR), mask.has(NetworkFilterMask::IS_LEFT_ANCHOR), mask.has(NetworkFilterMask::IS_COMPLETE_REGEX));
+                      let ci = mask.has(NetworkFilterMask::IS_COMPLETE_REGEX) && !mask.has(NetworkFilterMask::MATCH_CASE);
+                      r->CompiledSet_0.pats@ == (if builds_set(all, false, ci) { all } else { valid_upto(all, all.len() as int, ci) }) }))), // OBL C02.regex.make.set
         shape(r) == compile_shape(filters.remaining(), mask.has(NetworkFilterMask::IS_RIGHT_ANCHOR), mask.has(NetworkFilterMask::IS_LEFT_ANCHOR), mask.has(NetworkFilterMask::IS_COMPLETE_REGEX), !mask.has(NetworkFilterMask::MATCH_CASE)), // OBL C02.regex.make.function_of_inputs
 //@ ENDSPEC
 //@END
